@@ -59,14 +59,18 @@ CONSTANTS
     WithSkip,           \* LayerSkip enabled
     WithPass,           \* PassRead enabled
     WithTry,            \* WTryDecide enabled (a worker released into the RLock while VerifyTOC holds the lock)
+    WithMount,          \* fs.Mount level: Verify/SkipVerify are reached only through the decision of filesystem.Mount (needs AtomicVerify)
+    FsCfgs,             \* configurations of the filesystem: "--", "a-" (allow_no_verification), "-d" (disable_verification), "ad"
     \* negative controls, TRUE = as the code
     DecideUnderLock,    \* VerifyTOC sets prohibit and loads lastErr in one critical section excluding the workers' decision
     AbortWhenProhibited,\* a worker that finds a bad chunk after the decision aborts instead of committing
     VerifyBeforeCache,  \* on-demand path: verifyChunk before cacheData
     RecheckCachedLayer, \* layer.Verify on a layer whose r is set checks the digest (fix) instead of returning nil
-    PassVerifies        \* passthrough merge verifies the chunks it takes from the source
+    PassVerifies,       \* passthrough merge verifies the chunks it takes from the source
+    TocLabelFirst       \* fs.Mount looks at the TOC digest label before the skip-verify label
 
 VARIABLES
+    fscfg,     \* configuration of the filesystem the layer is mounted by (one of FsCfgs)
     toc,       \* "D" | "X": what the TOC actually parsed hashes to
     src,       \* [1..NC -> {"g","s","k"}]
     cache,     \* [1..NC -> {"-","g","s"}]          chunk cache (uncompressed chunks)
@@ -81,8 +85,8 @@ VARIABLES
     nalter, nverify,
     last       \* observation of the last step
 
-core == <<toc, src, cache, pf, prohibit, lastErr, verify, lr, okArgs, served, wk, vt, rd, nalter, nverify>>
-vars == <<toc, src, cache, pf, prohibit, lastErr, verify, lr, okArgs, served, wk, vt, rd, nalter, nverify, last>>
+core == <<fscfg, toc, src, cache, pf, prohibit, lastErr, verify, lr, okArgs, served, wk, vt, rd, nalter, nverify>>
+vars == <<fscfg, toc, src, cache, pf, prohibit, lastErr, verify, lr, okArgs, served, wk, vt, rd, nalter, nverify, last>>
 
 Chunks  == 1..NC
 Workers == 1..NWk
@@ -99,7 +103,11 @@ ReadersQuiet == \A r \in Readers : rd[r].pc \in {"idle", "done"}
 NoUrgent == \A w \in Workers : ~(wk[w].pc = "rlwait" /\ vt.pc # "loaded")
 Quiet == (AtomicRead => ReadersQuiet) /\ NoUrgent
 
+AllowNoVerif == fscfg \in {"a-", "ad"}
+DisableVerif == fscfg \in {"-d", "ad"}
+
 Init ==
+    /\ fscfg \in FsCfgs
     /\ toc \in Tocs
     /\ src = [c \in Chunks |-> "g"]
     /\ cache = [c \in Chunks |-> "-"]
@@ -116,9 +124,10 @@ Init ==
 (* environment *)
 Alter(c, k) ==
     /\ Quiet /\ nalter < MaxAlter /\ src[c] # k
+    /\ (WithMount => nverify = 0)       \* (fs level: the blob layer keeps what it fetched; the source is altered before the first Mount)
     /\ src' = [src EXCEPT ![c] = k]
     /\ nalter' = nalter + 1
-    /\ UNCHANGED <<toc, cache, pf, prohibit, lastErr, verify, lr, okArgs, served, wk, vt, rd, nverify>>
+    /\ UNCHANGED <<fscfg, toc, cache, pf, prohibit, lastErr, verify, lr, okArgs, served, wk, vt, rd, nverify>>
     /\ last' = [act |-> "Alter", c |-> c, k |-> k]
 
 ----------------------------------------------------------------------------
@@ -129,7 +138,7 @@ WProbe(w, c) ==
     /\ IF cache[c] # "-"
        THEN wk' = [wk EXCEPT ![w] = [pc |-> "done", c |-> c, val |-> "-"]]
        ELSE wk' = [wk EXCEPT ![w] = [pc |-> "probed", c |-> c, val |-> "-"]]
-    /\ UNCHANGED <<toc, src, cache, pf, prohibit, lastErr, verify, lr, okArgs, served, vt, rd, nalter, nverify>>
+    /\ UNCHANGED <<fscfg, toc, src, cache, pf, prohibit, lastErr, verify, lr, okArgs, served, vt, rd, nalter, nverify>>
     /\ last' = [act |-> "WProbe", w |-> w, c |-> c, hit |-> cache[c] # "-"]
 
 WReadSrc(w) ==
@@ -137,7 +146,7 @@ WReadSrc(w) ==
     /\ IF src[wk[w].c] = "k"
        THEN wk' = [wk EXCEPT ![w].pc = "done"]
        ELSE wk' = [wk EXCEPT ![w].pc = "read", ![w].val = src[wk[w].c]]
-    /\ UNCHANGED <<toc, src, cache, pf, prohibit, lastErr, verify, lr, okArgs, served, vt, rd, nalter, nverify>>
+    /\ UNCHANGED <<fscfg, toc, src, cache, pf, prohibit, lastErr, verify, lr, okArgs, served, vt, rd, nalter, nverify>>
     /\ last' = [act |-> "WReadSrc", w |-> w, res |-> IF src[wk[w].c] = "k" THEN "ioerr" ELSE "ok"]
 
 \* the worker is let go towards its decision while VerifyTOC holds the write lock: it blocks in RLock
@@ -146,7 +155,7 @@ WTryDecide(w) ==
     /\ wk[w].pc = "read" /\ vt.pc = "loaded"
     /\ wk[w].val # "g"                  \* only a chunk that failed its digest takes the RLock
     /\ wk' = [wk EXCEPT ![w].pc = "rlwait"]
-    /\ UNCHANGED <<toc, src, cache, pf, prohibit, lastErr, verify, lr, okArgs, served, vt, rd, nalter, nverify>>
+    /\ UNCHANGED <<fscfg, toc, src, cache, pf, prohibit, lastErr, verify, lr, okArgs, served, vt, rd, nalter, nverify>>
     /\ last' = [act |-> "WTryDecide", w |-> w, blocked |-> TRUE]
 
 WDecide(w) ==
@@ -166,14 +175,14 @@ WDecide(w) ==
        ELSE /\ wk' = [wk EXCEPT ![w].pc = "commit"]
             /\ lastErr' = TRUE
             /\ last' = [act |-> "WDecide", w |-> w, res |-> "commit"]
-    /\ UNCHANGED <<toc, src, cache, pf, prohibit, verify, lr, okArgs, served, vt, rd, nalter, nverify>>
+    /\ UNCHANGED <<fscfg, toc, src, cache, pf, prohibit, verify, lr, okArgs, served, vt, rd, nalter, nverify>>
 
 WCommit(w) ==
     /\ Quiet /\ wk[w].pc = "commit"
     /\ \E nv \in {wk[w].val} \cup (IF cache[wk[w].c] # "-" THEN {cache[wk[w].c]} ELSE {}) :
           cache' = [cache EXCEPT ![wk[w].c] = nv]
     /\ wk' = [wk EXCEPT ![w].pc = "done"]
-    /\ UNCHANGED <<toc, src, pf, prohibit, lastErr, verify, lr, okArgs, served, vt, rd, nalter, nverify>>
+    /\ UNCHANGED <<fscfg, toc, src, pf, prohibit, lastErr, verify, lr, okArgs, served, vt, rd, nalter, nverify>>
     /\ last' = [act |-> "WCommit", w |-> w]
 
 ----------------------------------------------------------------------------
@@ -184,7 +193,7 @@ VTLoad(d) ==
     /\ nverify' = nverify + 1
     /\ vt' = [pc |-> "loaded", arg |-> d, ld |-> lastErr]
     /\ prohibit' = IF DecideUnderLock THEN TRUE ELSE prohibit   \* control off: the load happens before the lock section
-    /\ UNCHANGED <<toc, src, cache, pf, lastErr, verify, lr, okArgs, served, wk, rd, nalter>>
+    /\ UNCHANGED <<fscfg, toc, src, cache, pf, lastErr, verify, lr, okArgs, served, wk, rd, nalter>>
     /\ last' = [act |-> "VTLoad", d |-> d]
 
 VTUnlock ==
@@ -192,7 +201,7 @@ VTUnlock ==
     /\ vt.pc = "loaded"
     /\ vt' = [vt EXCEPT !.pc = "unlocked"]
     /\ prohibit' = TRUE
-    /\ UNCHANGED <<toc, src, cache, pf, lastErr, verify, lr, okArgs, served, wk, rd, nalter, nverify>>
+    /\ UNCHANGED <<fscfg, toc, src, cache, pf, lastErr, verify, lr, okArgs, served, wk, rd, nalter, nverify>>
     /\ last' = [act |-> "VTUnlock"]
 
 VTOutcome(ld, d) == IF ld THEN "err" ELSE IF toc # d THEN "err" ELSE "ok"
@@ -203,31 +212,55 @@ VTFinish ==
     /\ IF VTOutcome(vt.ld, vt.arg) = "ok"
        THEN /\ verify' = TRUE /\ lr' = "verified" /\ okArgs' = okArgs \cup {vt.arg}
        ELSE /\ UNCHANGED <<verify, lr, okArgs>>
-    /\ UNCHANGED <<toc, src, cache, pf, prohibit, lastErr, served, wk, rd, nalter, nverify>>
+    /\ UNCHANGED <<fscfg, toc, src, cache, pf, prohibit, lastErr, served, wk, rd, nalter, nverify>>
     /\ last' = [act |-> "VTFinish", d |-> vt.arg, res |-> VTOutcome(vt.ld, vt.arg)]
 
 \* layer.Verify as one step (no gates at the layer level)
+LVOk(d) == IF lr = "nil" THEN VTOutcome(lastErr, d) = "ok"
+           ELSE IF RecheckCachedLayer THEN (lr = "verified" /\ toc = d) ELSE TRUE   \* the layer object was verified or skip-verified before
+LVEffect(d) ==
+    IF lr = "nil"
+    THEN /\ prohibit' = TRUE
+         /\ IF LVOk(d) THEN /\ verify' = TRUE /\ lr' = "verified" /\ okArgs' = okArgs \cup {d}
+            ELSE UNCHANGED <<verify, lr, okArgs>>
+    ELSE /\ okArgs' = IF LVOk(d) THEN okArgs \cup {d} ELSE okArgs
+         /\ UNCHANGED <<prohibit, verify, lr>>
+
 LayerVerify(d) ==
-    /\ AtomicVerify /\ Quiet /\ nverify < MaxVerify /\ vt.pc = "idle"
+    /\ AtomicVerify /\ ~WithMount /\ Quiet /\ nverify < MaxVerify /\ vt.pc = "idle"
     /\ nverify' = nverify + 1
-    /\ IF lr = "nil"
-       THEN /\ prohibit' = TRUE
-            /\ IF VTOutcome(lastErr, d) = "ok"
-               THEN /\ verify' = TRUE /\ lr' = "verified" /\ okArgs' = okArgs \cup {d}
-               ELSE /\ UNCHANGED <<verify, lr, okArgs>>
-            /\ last' = [act |-> "LayerVerify", d |-> d, res |-> VTOutcome(lastErr, d), cached |-> FALSE]
-       ELSE \* the layer object was verified or skip-verified before
-            LET ok == IF RecheckCachedLayer THEN (lr = "verified" /\ toc = d) ELSE TRUE
-            IN /\ okArgs' = IF ok THEN okArgs \cup {d} ELSE okArgs
-               /\ UNCHANGED <<prohibit, verify, lr>>
-               /\ last' = [act |-> "LayerVerify", d |-> d, res |-> IF ok THEN "ok" ELSE "err", cached |-> TRUE]
-    /\ UNCHANGED <<toc, src, cache, pf, lastErr, served, wk, vt, rd, nalter>>
+    /\ LVEffect(d)
+    /\ last' = [act |-> "LayerVerify", d |-> d, res |-> IF LVOk(d) THEN "ok" ELSE "err", cached |-> lr # "nil"]
+    /\ UNCHANGED <<fscfg, toc, src, cache, pf, lastErr, served, wk, vt, rd, nalter>>
+
+\* filesystem.Mount (fs/fs.go) after the layer was resolved: which of Verify / SkipVerify / refusal the snapshot labels
+\* (tl: TOC digest label "D" | "W" | "none"; sk: skip-verify label) and the configuration select.
+\* A Mount that was given a TOC digest label and returns success counts as a mount pinned to that digest (okArgs),
+\* whichever call it made - unless verification is disabled as a whole by the operator (disable_verification).
+MountCall(tl, sk) ==
+    IF DisableVerif THEN "skip"
+    ELSE IF TocLabelFirst
+         THEN (IF tl # "none" THEN "verify" ELSE IF sk /\ AllowNoVerif THEN "skip" ELSE "refuse")
+         ELSE (IF sk /\ AllowNoVerif THEN "skip" ELSE IF tl # "none" THEN "verify" ELSE "refuse")
+
+Mount(tl, sk) ==
+    /\ WithMount /\ AtomicVerify /\ Quiet /\ nverify < MaxVerify /\ vt.pc = "idle"
+    /\ nverify' = nverify + 1
+    /\ LET call == MountCall(tl, sk)
+       IN /\ CASE call = "verify" -> LVEffect(tl)
+               [] call = "skip" -> /\ lr' = IF lr = "nil" THEN "skipped" ELSE lr
+                                   /\ okArgs' = IF tl # "none" /\ ~DisableVerif THEN okArgs \cup {tl} ELSE okArgs
+                                   /\ UNCHANGED <<prohibit, verify>>
+               [] OTHER -> UNCHANGED <<prohibit, verify, lr, okArgs>>
+          /\ last' = [act |-> "Mount", tl |-> tl, sk |-> sk, call |-> call,
+                      res |-> IF call = "verify" THEN (IF LVOk(tl) THEN "ok" ELSE "err") ELSE IF call = "skip" THEN "ok" ELSE "err"]
+    /\ UNCHANGED <<fscfg, toc, src, cache, pf, lastErr, served, wk, vt, rd, nalter>>
 
 LayerSkip ==
-    /\ WithSkip /\ Quiet /\ vt.pc = "idle"
+    /\ WithSkip /\ ~WithMount /\ Quiet /\ vt.pc = "idle"
     /\ lr = "nil"                       \* (a no-op otherwise)
     /\ lr' = "skipped"
-    /\ UNCHANGED <<toc, src, cache, pf, prohibit, lastErr, verify, okArgs, served, wk, vt, rd, nalter, nverify>>
+    /\ UNCHANGED <<fscfg, toc, src, cache, pf, prohibit, lastErr, verify, okArgs, served, wk, vt, rd, nalter, nverify>>
     /\ last' = [act |-> "LayerSkip"]
 
 ----------------------------------------------------------------------------
@@ -245,7 +278,7 @@ RProbe(r, c) ==
        ELSE /\ rd' = [rd EXCEPT ![r] = [pc |-> "missed", c |-> c, val |-> "-", vm |-> vmount]]
             /\ served' = served
             /\ last' = [act |-> "RProbe", r |-> r, c |-> c]
-    /\ UNCHANGED <<toc, src, cache, pf, prohibit, lastErr, verify, lr, okArgs, wk, vt, nalter, nverify>>
+    /\ UNCHANGED <<fscfg, toc, src, cache, pf, prohibit, lastErr, verify, lr, okArgs, wk, vt, nalter, nverify>>
 
 RFetch(r) ==
     /\ ~AtomicRead /\ NoUrgent /\ rd[r].pc = "missed"
@@ -254,7 +287,7 @@ RFetch(r) ==
             /\ last' = [act |-> "Read", r |-> r, c |-> rd[r].c, res |-> "ioerr", v |-> "-", probe |-> cache[rd[r].c]]
        ELSE /\ rd' = [rd EXCEPT ![r].pc = "fetched", ![r].val = src[rd[r].c]]
             /\ last' = [act |-> "RFetch", r |-> r]
-    /\ UNCHANGED <<toc, src, cache, pf, prohibit, lastErr, verify, lr, okArgs, served, wk, vt, nalter, nverify>>
+    /\ UNCHANGED <<fscfg, toc, src, cache, pf, prohibit, lastErr, verify, lr, okArgs, served, wk, vt, nalter, nverify>>
 
 RFinish(r) ==
     /\ ~AtomicRead /\ NoUrgent /\ rd[r].pc = "fetched"
@@ -266,7 +299,7 @@ RFinish(r) ==
           /\ served' = IF ~bad /\ rd[r].vm THEN served \cup {v} ELSE served
           /\ last' = [act |-> "Read", r |-> r, c |-> c, res |-> IF bad THEN "verr" ELSE "ok",
                       v |-> IF bad THEN "-" ELSE v, probe |-> cache'[c]]
-    /\ UNCHANGED <<toc, src, pf, prohibit, lastErr, verify, lr, okArgs, wk, vt, nalter, nverify>>
+    /\ UNCHANGED <<fscfg, toc, src, pf, prohibit, lastErr, verify, lr, okArgs, wk, vt, nalter, nverify>>
 
 \* the three steps above in one (replay and layer-level histories)
 Read(r, c) ==
@@ -280,7 +313,7 @@ Read(r, c) ==
           /\ served' = IF res = "ok" /\ vmount THEN served \cup {v} ELSE served
           /\ rd' = [rd EXCEPT ![r] = [pc |-> "done", c |-> c, val |-> "-", vm |-> vmount]]
           /\ last' = [act |-> "Read", r |-> r, c |-> c, res |-> res, v |-> IF res = "ok" THEN v ELSE "-", probe |-> cache'[c]]
-    /\ UNCHANGED <<toc, src, pf, prohibit, lastErr, verify, lr, okArgs, wk, vt, nalter, nverify>>
+    /\ UNCHANGED <<fscfg, toc, src, pf, prohibit, lastErr, verify, lr, okArgs, wk, vt, nalter, nverify>>
 
 \* GetPassthroughFd on the file made of all chunks, then a read of the whole file through the descriptor
 PassRead(r) ==
@@ -300,7 +333,7 @@ PassRead(r) ==
             IN /\ pf' = IF res = "ok" THEN [c \in Chunks |-> val(c)] ELSE pf
                /\ served' = IF res = "ok" /\ vmount THEN served \cup {val(c) : c \in Chunks} ELSE served
                /\ last' = [act |-> "PassRead", r |-> r, res |-> res, vals |-> IF res = "ok" THEN [c \in Chunks |-> val(c)] ELSE NoPf]
-    /\ UNCHANGED <<toc, src, cache, prohibit, lastErr, verify, lr, okArgs, wk, vt, nalter, nverify>>
+    /\ UNCHANGED <<fscfg, toc, src, cache, prohibit, lastErr, verify, lr, okArgs, wk, vt, nalter, nverify>>
 
 ----------------------------------------------------------------------------
 Next ==
@@ -314,6 +347,7 @@ Next ==
     \/ VTUnlock
     \/ VTFinish
     \/ \E d \in Args : LayerVerify(d)
+    \/ \E tl \in Args \cup {"none"}, sk \in BOOLEAN : Mount(tl, sk)
     \/ LayerSkip
     \/ \E r \in Readers, c \in Chunks : RProbe(r, c)
     \/ \E r \in Readers : RFetch(r)
@@ -326,7 +360,8 @@ Spec == Init /\ [][Next]_vars
 ----------------------------------------------------------------------------
 (* Property C01 *)
 
-\* a mount with the pinned digest d succeeds only if the TOC actually used hashes to d
+\* a mount with the pinned digest d (Verify(d), or a filesystem.Mount that was given the TOC digest label d - whatever other
+\* labels say) succeeds only if the TOC actually used hashes to d
 MountImpliesToc == \A d \in okArgs : toc = d
 \* every value returned by a read after a successful verified mount is the one the TOC records
 ServedAreGood == served \subseteq {"g"}
